@@ -7,6 +7,7 @@
 import PydapModel.Handler
 import Proofs.Handler
 import Proofs.HandlerWF
+import Proofs.CeSrc
 namespace Pydap.C15
 open Pydap Pydap.Handler
 
@@ -125,5 +126,35 @@ example : handle intText dsA (cs!"/d.dds") (cs!"a[0:1]")
     = .ok .dds (.complete (cs!"Dataset {\n    Int32 a[a = 2];\n} d;\n")) := by decide +kernel
 example : dsA.WF := by
   intro v hv; simp [dsA] at hv; subst hv; exact ⟨rfl, rfl⟩
+
+/-! ### the tie by translation: the *source text* of `parse_ce`'s first statement is `parseCE`'s first test
+
+`Pydap.Gen.src_parse_ce_guard` (PydapModel/Generated/CeSrc.lean) is the MiniPy syntax tree of
+`if protocol == "dap2": key = "&"; if len(query_string) > 0 and query_string[:8] == "dap4.ce=": raise … elif …`,
+regenerated from `parsers/__init__.py` on every run by `harness/py2lean.py`; `ceEnv q` binds `protocol = "dap2"`
+(the default the handler uses) and `query_string = q`. -/
+
+open MiniPy in
+/-- for every query string the interpreted source raises `ConstraintExpressionError` exactly when the model's test
+    `q ≠ [] ∧ q.take 8 = "dap4.ce="` holds, and otherwise leaves `query_string` unchanged and splits at `&` -/
+theorem C15_source_parse_ce_guard (q : Handler.Str) :
+    runItem (ceEnv q) Gen.src_parse_ce_guard "query_string"
+      = (if q ≠ [] ∧ q.take 8 = Handler.dap4Prefix then .error (.raised "ConstraintExpressionError")
+         else .ok (.str (codesOf q))) ∧
+    runItem (ceEnv q) Gen.src_parse_ce_guard "key"
+      = (if q ≠ [] ∧ q.take 8 = Handler.dap4Prefix then .error (.raised "ConstraintExpressionError")
+         else .ok (.str [38])) :=
+  src_parse_ce_guard_eq q
+
+/-- … and in that case the model's `parseCE` answers with the constraint-expression error -/
+theorem C15_source_parse_ce_guard_model (q : Handler.Str) (h : q ≠ [] ∧ q.take 8 = Handler.dap4Prefix) :
+    Handler.parseCE q = .error .ceError :=
+  parseCE_guard q h
+
+open MiniPy in
+example : runItem (ceEnv "dap4.ce=/a".toList) Gen.src_parse_ce_guard "key"
+    = .error (.raised "ConstraintExpressionError") := by rfl
+open MiniPy in
+example : runItem (ceEnv "a&b>1".toList) Gen.src_parse_ce_guard "key" = .ok (.str [38]) := by rfl
 
 end Pydap.C15
